@@ -11,7 +11,7 @@ const mdP = "kvdb/multidb."
 
 func init() {
 	register("C26", "other", "T10 MapOrder, T11 Determinism effects, T2 Dominates (conflict loop before recording), T8 DecisionTable (scenario form: feasible paths under a valuation of the semantic atoms; field coverage in verification)",
-		"Decides the structural conditions of deterministic, isolating routing: nothing reachable from NewProducer/RouteOf/OpenDB/Verify in the multidb and fmtfilter packages draws randomness or time, and no map is ranged over in a way that lets the iteration order reach the result — in particular the pattern routes, which RouteOf tries first-match, must not be kept in map iteration order (a slice collected in map order counts as ordered only if it is sorted by a total order of its elements); in RouteOf, or in the function it calls to make the search, a pattern is tried only after the exact table had no entry, and after a pattern matched no further pattern is tried for the same request; a request is recorded (WriteTablesList) only after the complete scan over the recorded requests, in which — for every element, however the tests are nested or spelled — a recorded table that is a prefix of / prefixed by the routed table of another request, and the same request with a different table, leave the iteration only through error returns, while the same request with the same table is never refused; the conflict test returns true whenever one table is a prefix of the other; OpenDB hands out a store only after handleRoute returned nil and wraps it with the routed table; verification compares type, name and table of every recorded request with its current route (the comparison of one record may live in a helper whose error is then propagated for every element). The behaviour of Sscanf-based pattern matching itself is not decided.",
+		"Decides the structural conditions of deterministic, isolating routing: nothing reachable from NewProducer/RouteOf/OpenDB/Verify in the multidb and fmtfilter packages draws randomness or time, and no map is ranged over in a way that lets the iteration order reach the result — in particular the pattern routes, which RouteOf tries first-match, must not be kept in map iteration order (a slice collected in map order counts as ordered only if it is sorted by a total order of its elements); in RouteOf, or in the function it calls to make the search, a pattern is tried only after the exact table had no entry, and after a pattern matched no further pattern is tried for the same request; every producer field or package variable that RouteOf (or a function it enters) consults is written only during construction, or is a cache of RouteOf's own results whose entries are stored and looked up under the unmodified request and hold what RouteOf returns (so the route of a request does not depend on the requests routed before it); a request is recorded (WriteTablesList) only after the complete scan over the recorded requests, in which — for every element, however the tests are nested or spelled — a recorded table that is a prefix of / prefixed by the routed table of another request, and the same request with a different table, leave the iteration only through error returns, while the same request with the same table is never refused; the conflict test returns true whenever one table is a prefix of the other; OpenDB hands out a store only after handleRoute returned nil and wraps it with the routed table; verification compares type, name and table of every recorded request with its current route (the comparison of one record may live in a helper whose error is then propagated for every element). The behaviour of Sscanf-based pattern matching itself is not decided.",
 		[]string{"fmt.Sscanf/Sprintf are deterministic", "producers of the individual database types are opaque"},
 		runC26)
 }
@@ -62,6 +62,10 @@ func runC26(c *core.Ctx) {
 
 	c.Clause("C26.route", func() {
 		c26Route(c, c.Fn(mdP+"Producer.RouteOf"))
+	})
+
+	c.Clause("C26.route.state", func() {
+		c26RouteState(c, c.Fn(mdP+"Producer.RouteOf"), c.Fn(mdP+"NewProducer"))
 	})
 
 	c.Clause("C26.conflict", func() {
